@@ -45,6 +45,7 @@ ThoroughScenarios == One(Provisioned(ThoroughLists) \cup External(ThoroughLists)
                      \cup Two(ReuseMore, ReuseMore) \cup Three(ReuseSmall, ReuseSmall, ReuseSmall)
 LiveScenarios == One(Provisioned({OneLocal, TwoLocalPorts, LocalRemote, TwoRemotes, NoTargets}) \cup External({OneLocal}))
                  \cup Two({Ext1, P(LocalRemote)}, {Ext1, P(LocalRemote), P(TwoRemotes)})
+StaleScenarios == Two({P(TwoLocalPorts)}, {P(TwoLocalPorts)})
 LeaveScenarios == One(Provisioned({TwoRemotes, RemotesLocal})) \cup Two({Ext1}, {P(TwoRemotes)})
 \* every list of up to 3 targets over 3 hosts x 2 ports
 AllTargets == {T(ip, port) : ip \in 0..2, port \in 1..2}
